@@ -829,9 +829,23 @@ impl TypeLayout {
             TypeLayout::Function(..) => false,
             TypeLayout::Module(..) => false,
             TypeLayout::Map(..) => false,
+            // lists are compared element by element, and a map is equal to nothing
+            TypeLayout::List(ListType::Open(ty)) => !ty.contains_map(),
+            TypeLayout::List(ListType::Mixed(types)) => !types.iter().any(|ty| ty.contains_map()),
             TypeLayout::ValidIndexes(..) => unreachable!(),
             TypeLayout::Void => false,
             _ => true,
+        }
+    }
+
+    /// Whether a value of this type is a map, or a list or optional that can hold one.
+    fn contains_map(&self) -> bool {
+        match self.disregard_distractors(false) {
+            TypeLayout::Map(..) => true,
+            TypeLayout::Optional(Some(ty)) => ty.contains_map(),
+            TypeLayout::List(ListType::Open(ty)) => ty.contains_map(),
+            TypeLayout::List(ListType::Mixed(types)) => types.iter().any(|ty| ty.contains_map()),
+            _ => false,
         }
     }
 
@@ -1211,7 +1225,8 @@ impl TypeLayout {
                                 list_param.into()
                             ))
                         }
-                        "index_of" => {
+                        // the search compares with `==`
+                        "index_of" if list_type.supports_equ() => {
                             let return_type = TypeLayout::int().optional_of();
                             Some(new_assoc_function!(vec![list_type], return_type.into()))
                         }
